@@ -1,9 +1,9 @@
 package main
 
 import (
-	"strings"
 	"go/token"
 	"go/types"
+	"strings"
 
 	"golang.org/x/tools/go/ssa"
 )
@@ -18,7 +18,7 @@ func init() {
 			"R2 pod arrival drains the pending replays for its IP on every path that inserts a new IP; an IP change removes the old index entry before inserting the new one; deleteIP removes both indexes together",
 			"R3 lock discipline: PodCache indexes, the EndpointSlice endpoint cache and the controller's service/node maps are touched only under their mutex",
 		},
-		NotDecided: "convergence itself (that every event order ends in the cold-start state), service delete/re-add interaction with the slice cache, label-change handling",
+		NotDecided: "convergence itself (that every event order ends in the cold-start state), label-change handling",
 		Rules: []Rule{
 			{"C15-R1", "endpoint before pod is replayed", c15r1},
 			{"C15-R2", "pod index maintenance", c15r2},
@@ -28,6 +28,7 @@ func init() {
 			{"C15-R6", "the IP a pod was indexed under comes from the cache, not from the event", c15r6},
 			{"C15-R7", "every replay taken out of needResync is queued", c15r7},
 			{"C15-R8", "a changed cluster network is always propagated", c15r8},
+			{"C15-R9", "the slice cache is written per slice, for slices named by EndpointSlice objects", c15r9},
 		},
 	})
 }
@@ -290,7 +291,6 @@ func c15r3(c *Ctx) {
 	c.Floor(30)
 }
 
-
 // C15-R4: the EndpointSlice cache holds, per service and slice, what the LAST write of THAT slice said; duplicates across
 // slices are resolved when reading. update() therefore writes only the entry of the slice it was called for. A write
 // into another slice's entry makes the registry depend on the order in which slices were written and cannot be undone
@@ -479,36 +479,36 @@ func c15r7(c *Ctx) {
 		fns = append(fns, h.callee)
 	}
 	for _, fn := range fns {
-	for _, l := range rangeLoops(fn) {
-		if l.Over == nil {
-			continue
-		}
-		// the drained entry: a comma-ok lookup in needResync
-		fromNR := false
-		if ex, ok := l.Over.(*ssa.Extract); ok {
-			if lk, ok := ex.Tuple.(*ssa.Lookup); ok && fieldOfLoad(lk.X) == nr {
+		for _, l := range rangeLoops(fn) {
+			if l.Over == nil {
+				continue
+			}
+			// the drained entry: a comma-ok lookup in needResync
+			fromNR := false
+			if ex, ok := l.Over.(*ssa.Extract); ok {
+				if lk, ok := ex.Tuple.(*ssa.Lookup); ok && fieldOfLoad(lk.X) == nr {
+					fromNR = true
+				}
+			}
+			if lk, ok := l.Over.(*ssa.Lookup); ok && fieldOfLoad(lk.X) == nr {
 				fromNR = true
 			}
+			if !fromNR {
+				continue
+			}
+			n++
+			isQ := deepMust(func(ins ssa.Instruction) bool {
+				ci, ok := ins.(ssa.CallInstruction)
+				return ok && fieldOfLoad(ci.Common().Value) == qf
+			}, 1)
+			bad, found := pathAvoidingE(l.Body, nil, isQ, nil, nil, l.Header)
+			pos := fn.Pos()
+			if bad != nil {
+				pos = bad.Pos()
+			}
+			c.Check("addPod: every replay taken out of needResync is queued", pos, !found,
+				"a pass of the loop over the drained needResync entry can finish without queueing the endpoint event: the entry was deleted as a whole before the loop, so the skipped EndpointSlice has lost its pending replay - when its own Pod arrives later on the same IP there is nothing left to replay, and the service keeps an endpoint set a cold start would not produce")
 		}
-		if lk, ok := l.Over.(*ssa.Lookup); ok && fieldOfLoad(lk.X) == nr {
-			fromNR = true
-		}
-		if !fromNR {
-			continue
-		}
-		n++
-		isQ := deepMust(func(ins ssa.Instruction) bool {
-			ci, ok := ins.(ssa.CallInstruction)
-			return ok && fieldOfLoad(ci.Common().Value) == qf
-		}, 1)
-		bad, found := pathAvoidingE(l.Body, nil, isQ, nil, nil, l.Header)
-		pos := fn.Pos()
-		if bad != nil {
-			pos = bad.Pos()
-		}
-		c.Check("addPod: every replay taken out of needResync is queued", pos, !found,
-			"a pass of the loop over the drained needResync entry can finish without queueing the endpoint event: the entry was deleted as a whole before the loop, so the skipped EndpointSlice has lost its pending replay - when its own Pod arrives later on the same IP there is nothing left to replay, and the service keeps an endpoint set a cold start would not produce")
-	}
 	}
 	c.Check("addPod drains needResync in a loop", fn.Pos(), n == 1, "no loop over the needResync entry of the pod's IP found in addPod")
 	c.Floor(2)
@@ -538,4 +538,267 @@ func c15r8(c *Ctx) {
 			"onSystemNamespaceEvent can return after setNetworkFromNamespace reported a change without refreshing what was built with the previous network: endpoints and pods processed before the Namespace event keep the old (empty) network, while the same objects processed namespace-first - or a cold start - carry the labelled one; cross-network routing for those endpoints is wrong until something else touches them")
 	}
 	c.Floor(2)
+}
+
+// C15-R9: the EndpointSlice endpoint cache is a function of the EndpointSlice objects alone. A cold start on the final
+// objects fills it from the slices that exist, so on the event path it may be written only (a) by methods of the cache
+// type, (b) one slice entry at a time - the inner key of every write is the method's own slice-name parameter, a service's
+// whole entry is created only when absent and dropped only when its last slice is gone - and (c) for a slice name that
+// is read from an *EndpointSlice object at the call site. A write keyed by anything else (for instance a Service delete
+// that drops all slices of a host, seed C15-1) leaves the cache depending on whether the Service or the slice event came
+// last: the slices survive the Service, no slice event follows, and a re-created Service finds no endpoints.
+func c15r9(c *Ctx) {
+	p := c.P
+	fv := p.Field(pkgKubeCtl, "endpointSliceCache", "endpointsByServiceAndSlice")
+	cacheT := p.Named(pkgKubeCtl, "endpointSliceCache")
+	isOuter := func(v ssa.Value) bool { _, ok := fieldLoadOf(v, fv); return ok }
+	var innerOf func(v ssa.Value) bool
+	innerOf = func(v ssa.Value) bool {
+		if ex, ok := v.(*ssa.Extract); ok {
+			v = ex.Tuple
+		}
+		if phi, ok := v.(*ssa.Phi); ok {
+			// `m := outer[h]; if m == nil { m = make(...); outer[h] = m }` - the local is the inner map on one edge
+			for _, e := range phi.Edges {
+				if _, isPhi := e.(*ssa.Phi); !isPhi && innerOf(e) {
+					return true
+				}
+			}
+			return false
+		}
+		lk, ok := v.(*ssa.Lookup)
+		return ok && isOuter(lk.X)
+	}
+	recvIsCache := func(f *ssa.Function) bool {
+		if f.Signature.Recv() == nil {
+			return false
+		}
+		t := f.Signature.Recv().Type()
+		if pt, ok := t.(*types.Pointer); ok {
+			t = pt.Elem()
+		}
+		n, ok := t.(*types.Named)
+		return ok && n.Origin() == cacheT
+	}
+	builtinName := func(ins ssa.Instruction) (string, []ssa.Value) {
+		ci, ok := ins.(ssa.CallInstruction)
+		if !ok {
+			return "", nil
+		}
+		if b, ok := ci.Common().Value.(*ssa.Builtin); ok {
+			return b.Name(), ci.Common().Args
+		}
+		return "", nil
+	}
+	// slice-name parameter index (in Signature.Params) per writer method
+	sliceParam := map[*ssa.Function]int{}
+	nWrites := 0
+	for _, fn := range p.AllFuncs {
+		var innerKeys []ssa.Value
+		var innerPos []token.Pos
+		type outerW struct {
+			ins    ssa.Instruction
+			remove bool
+		}
+		var outers []outerW
+		eachInstr(fn, func(ins ssa.Instruction) {
+			switch x := ins.(type) {
+			case *ssa.MapUpdate:
+				if innerOf(x.Map) {
+					innerKeys, innerPos = append(innerKeys, x.Key), append(innerPos, x.Pos())
+				} else if isOuter(x.Map) {
+					outers = append(outers, outerW{x, false})
+				}
+			case *ssa.Store:
+				if fa, ok := x.Addr.(*ssa.FieldAddr); ok && fieldVar(fa.X.Type(), fa.Field) == fv {
+					_, fresh := fa.X.(*ssa.Alloc)
+					nWrites++
+					c.Check("the slice cache's map is replaced only while constructing the cache: "+shortFn(fn), x.Pos(), fresh,
+						"the whole endpointsByServiceAndSlice map of an existing cache is replaced; the cached endpoints of every slice are lost although no EndpointSlice changed")
+				}
+			default:
+				switch name, args := builtinName(ins); name {
+				case "delete":
+					if innerOf(args[0]) {
+						innerKeys, innerPos = append(innerKeys, args[1]), append(innerPos, ins.Pos())
+					} else if isOuter(args[0]) {
+						outers = append(outers, outerW{ins, true})
+					}
+				case "clear":
+					if innerOf(args[0]) || isOuter(args[0]) {
+						nWrites++
+						c.Check("the slice cache is never cleared wholesale: "+shortFn(fn), ins.Pos(), false,
+							"clear() on the slice cache drops the endpoints of slices that still exist; no EndpointSlice event will restore them")
+					}
+				}
+			}
+		})
+		if len(innerKeys) == 0 && len(outers) == 0 {
+			continue
+		}
+		nWrites += len(innerKeys) + len(outers)
+		if !c.checkOK("the slice cache is written only by methods of endpointSliceCache: "+shortFn(fn), fn.Pos(), recvIsCache(fn),
+			"a function outside the cache type writes endpointsByServiceAndSlice directly; the per-slice write discipline (and the mutex) of the cache cannot be decided for it") {
+			continue
+		}
+		// (b) inner writes are keyed by the method's own string parameter
+		for i, k := range innerKeys {
+			prm, isP := k.(*ssa.Parameter)
+			ok := isP && types.Identical(prm.Type().Underlying(), types.Typ[types.String])
+			if ok {
+				for j, q := range fn.Params {
+					if q == prm {
+						idx := j - 1 // Params[0] is the receiver
+						if old, seen := sliceParam[fn]; seen && old != idx {
+							ok = false
+						}
+						sliceParam[fn] = idx
+					}
+				}
+			}
+			c.Check("a cache write touches only the entry of the slice named by the caller: "+shortFn(fn), innerPos[i], ok,
+				"the inner key of a slice-cache write is not the method's slice-name parameter: the entry of another slice is changed by this call")
+		}
+		lastGone := edgesWhere(fn, func(v ssa.Value) bool {
+			b, ok := v.(*ssa.BinOp)
+			if !ok || b.Op != token.EQL {
+				return false
+			}
+			ci, ok := b.X.(*ssa.Call)
+			if !ok {
+				return false
+			}
+			if bi, ok := ci.Call.Value.(*ssa.Builtin); !ok || bi.Name() != "len" || !innerOf(ci.Call.Args[0]) {
+				return false
+			}
+			k, ok := b.Y.(*ssa.Const)
+			return ok && k.Value != nil && k.Value.ExactString() == "0"
+		}, true)
+		absent := edgesWhere(fn, func(v ssa.Value) bool {
+			if ex, ok := v.(*ssa.Extract); ok && ex.Index == 1 {
+				lk, ok := ex.Tuple.(*ssa.Lookup)
+				return ok && lk.CommaOk && isOuter(lk.X)
+			}
+			return false
+		}, false)
+		absent = append(absent, edgesWhere(fn, func(v ssa.Value) bool {
+			x, eq, ok := nilCmp(v)
+			return ok && eq && innerOf(x)
+		}, true)...)
+		for _, o := range outers {
+			if o.remove {
+				_, perSlice := sliceParam[fn]
+				c.Check("a service's cache entry is dropped only when its last slice is gone: "+shortFn(fn), o.ins.Pos(),
+					perSlice && underEdges(fn, o.ins.Block(), lastGone),
+					"all cached slices of a service are dropped at once; the EndpointSlices still exist and no event will re-add them (Service deleted and re-created, or Service event reordered against the slices)")
+			} else {
+				c.Check("a service's cache entry is created only when absent: "+shortFn(fn), o.ins.Pos(), underEdges(fn, o.ins.Block(), absent),
+					"the per-service map of the slice cache is overwritten although it exists: the entries of the service's other slices are lost")
+			}
+		}
+	}
+	// (c) call sites: wrappers inside the type pass their own parameter through; everyone else names the slice object
+	isSliceObjName := func(v ssa.Value) bool {
+		var base ssa.Value
+		if call, ok := v.(*ssa.Call); ok {
+			// the accessor form: slice.GetName()
+			if o := calleeObj(call); o == nil || o.Name() != "GetName" || len(call.Call.Args) != 1 {
+				return false
+			}
+			base = call.Call.Args[0]
+		} else {
+			u, ok := v.(*ssa.UnOp)
+			if !ok || u.Op != token.MUL {
+				return false
+			}
+			fa, ok := u.X.(*ssa.FieldAddr)
+			if !ok {
+				return false
+			}
+			if f := fieldVar(fa.X.Type(), fa.Field); f == nil || f.Name() != "Name" {
+				return false
+			}
+			base = fa.X
+		}
+		if fa2, ok := base.(*ssa.FieldAddr); ok {
+			base = fa2.X
+		}
+		t := base.Type()
+		if pt, ok := t.(*types.Pointer); ok {
+			t = pt.Elem()
+		}
+		n, ok := t.(*types.Named)
+		return ok && n.Obj().Name() == "EndpointSlice" && n.Obj().Pkg() != nil && n.Obj().Pkg().Path() == "k8s.io/api/discovery/v1"
+	}
+	nSites := 0
+	for changed := true; changed; {
+		changed = false
+		for _, fn := range p.AllFuncs {
+			eachInstr(fn, func(ins ssa.Instruction) {
+				ci, ok := ins.(ssa.CallInstruction)
+				if !ok {
+					return
+				}
+				callee := ci.Common().StaticCallee()
+				idx, isW := sliceParam[callee]
+				if !isW || callee == nil {
+					return
+				}
+				arg := ci.Common().Args[idx+1]
+				if recvIsCache(fn) {
+					if prm, ok := arg.(*ssa.Parameter); ok {
+						for j, q := range fn.Params {
+							if q == prm {
+								if _, seen := sliceParam[fn]; !seen {
+									sliceParam[fn] = j - 1
+									changed = true
+								}
+								return
+							}
+						}
+					}
+				}
+			})
+		}
+	}
+	for _, fn := range p.AllFuncs {
+		eachInstr(fn, func(ins ssa.Instruction) {
+			ci, ok := ins.(ssa.CallInstruction)
+			if !ok {
+				return
+			}
+			callee := ci.Common().StaticCallee()
+			if callee == nil {
+				return
+			}
+			idx, isW := sliceParam[callee]
+			if !isW {
+				return
+			}
+			arg := ci.Common().Args[idx+1]
+			if recvIsCache(fn) {
+				if prm, ok := arg.(*ssa.Parameter); ok && sliceParamIs(fn, sliceParam, prm) {
+					return // wrapper inside the type
+				}
+			}
+			nSites++
+			c.Check("the slice cache is written for a slice named by an EndpointSlice object: "+shortFn(fn)+" -> "+callee.Name(), ins.Pos(), isSliceObjName(arg),
+				"the slice name given to the cache does not come from an *EndpointSlice object's Name: the cache entry no longer follows the EndpointSlice objects")
+		})
+	}
+	c.Stat("writes", nWrites)
+	c.Stat("call_sites", nSites)
+	c.Check("the slice cache has per-slice writers", cacheT.Obj().Pos(), len(sliceParam) >= 2 && nSites >= 2, "no per-slice writer or no call site found")
+	c.Floor(8)
+}
+
+func sliceParamIs(fn *ssa.Function, m map[*ssa.Function]int, prm *ssa.Parameter) bool {
+	idx, ok := m[fn]
+	return ok && idx+1 < len(fn.Params) && fn.Params[idx+1] == prm
+}
+
+// checkOK records the obligation and returns its truth.
+func (c *Ctx) checkOK(construct string, pos token.Pos, ok bool, detail string) bool {
+	c.Check(construct, pos, ok, detail)
+	return ok
 }
